@@ -75,7 +75,7 @@ structure Sess where
   expired : Bool
   /-- ghost: generation of the fabric this session was authenticated for (0 = none) -/
   gen : Nat
-  /-- `Session::reserved`: owned by a handshake whose last message is not acknowledged yet -/
+  /-- `Session::reserved`: owned by a handshake that has not called `ReservedSession::complete` yet -/
   reserved : Bool := false
 deriving Repr, DecidableEq, Inhabited
 
@@ -183,9 +183,13 @@ inductive Op
   | kvfail (n : Nat)
   | corrupt
   | freset
-  /-- CASE handshake up to and including Sigma3: the reserved session carries the CASE mode already -/
+  /-- CASE handshake up to `ReservedSession::update`: the session carries the CASE mode (and its
+  resumption record exists) but is still reserved -/
   | hs (fab node rid : Nat)
-  /-- the last message of that handshake is acknowledged: the `ReservedSession` guard is dropped -/
+  /-- `ReservedSession::complete()` of that handshake: the session, if it is still there, is live at
+  once (repo fix 287abf0; the later drop of the completed guard changes nothing any more). The
+  responder calls `update` and `complete` back to back; they are two calls of the public guard API,
+  and the state between them is the only one in which a reserved session belongs to a fabric -/
   | hsdone (sid : Nat)
   /-- the node restarts and `Matter::factory_reset` runs BEFORE `Matter::startup`; then start-up -/
   | coldreset
@@ -716,8 +720,8 @@ def step (cfg : Cfg) (n : Node) (op : Op) : Node × Status :=
           | (n, some id) => ({ n with resum := resumInsert cfg n.resum { r with rid := newRid } }, .sess id)
           | (n, none) => (n, .err "NoSpaceSessions")
     | .hs fab node rid =>
-      -- responder.rs:430-482: `update_with_state` + the resumption record under one state lock,
-      -- `complete()`; the guard lives until the final status report is acknowledged (`hsdone`)
+      -- responder.rs:430-482: `update_with_state` + the resumption record under one state lock;
+      -- `complete()` is `hsdone`
       match (if fab = 0 then none else getFabric n fab) with
       | none => (n, .err "nofab")
       | some f =>
@@ -728,7 +732,8 @@ def step (cfg : Cfg) (n : Node) (op : Op) : Node × Status :=
                     pending := n.pending ++ [id] }, .sess id)
         | (n, none) => (n, .err "NoSpaceSessions")
     | .hsdone sid =>
-      -- `ReservedSession::drop` of a completed guard: the session, if it is still there, becomes a regular one
+      -- `ReservedSession::complete` (session.rs:1317): the session, if it is still there, becomes a
+      -- regular one; the guard is dropped (a no-op for a completed guard)
       if n.pending.contains sid then
         ok { n with pending := n.pending.filter (· ≠ sid),
                     sessions := n.sessions.map (fun s => if s.id = sid then { s with reserved := false } else s) }
